@@ -27,7 +27,7 @@ CORE_TRUSTED = [
 
 class CoreCheck(LineCheck):
     coq_extra = ["theories/Core/CoreRel.vo", "theories/Core/CoreInv.vo", "theories/Core/CoreCodes.vo", "theories/Core/CoreCodes2.vo",
-                 "theories/Core/CorePhase2Fd.vo", "theories/Core/CorePhase2Time.vo", "theories/Core/CorePhase2TimeC09.vo", "theories/Core/CorePhase2Guard.vo", "theories/Core/CorePhase2GuardAll.vo", "theories/Core/CorePhase2AcctIdleTop.vo", "theories/Core/CorePhase2Ei.vo", "theories/Core/CoreAll.vo", "theories/Core/CoreExamples.vo"]
+                 "theories/Core/CorePhase2Fd.vo", "theories/Core/CorePhase2Time.vo", "theories/Core/CorePhase2TimeC09.vo", "theories/Core/CorePhase2Guard.vo", "theories/Core/CorePhase2GuardAll.vo", "theories/Core/CorePhase2AcctIdleTop.vo", "theories/Core/CorePhase2Ei.vo", "theories/Core/CorePhase2AcctC07.vo", "theories/Core/CoreAll.vo", "theories/Core/CoreExamples.vo"]
     codes = []             # list of (lo, hi) failure-code ranges of the Coq monitor that belong to this property
     extra_codes = []
     profiles = ["mixed"]
@@ -588,7 +588,10 @@ class C15(CoreCheck):
     rule = ("the C01-C09 scenario programs x 4 poll methods x EINTR on the k-th wait / k-th epoll_ctl x each optional system call failing "
             "(ENOSYS/EPERM) from its first call, plus groups of 4 order-independent scenarios (one per poll method) whose callback sequences "
             "must be identical; non-trivial = a fault was injected or the method is not the default, and >= 1 callback ran; distinct = "
-            "distinct scenario text")
+            "distinct scenario text.  Plus: 180+ generated IV_EXCLUDE_POLL_METHOD strings (all subsets and orders of the four names, "
+            "unknown tokens, prefixes / extensions of method names, over-long tokens, every kind of whitespace, empty, unset) for which "
+            "the real library (harness/method_smoke.c) must select the method Core/MethodSel.v `select` computes; and the virtual "
+            "kernel's assumptions probed against Linux (harness/vk_smoke.c)")
 
     def cross_body(self, rng):
         """order-independent scenario (one user descriptor, ms-multiple timers) run on all four methods"""
@@ -645,12 +648,45 @@ class C15(CoreCheck):
             return "virtual kernel disagrees with Linux (output length)"
         return None
 
+    def method_selection(self, ctx, st, cases):
+        """every method exclusion requested through the environment: real library vs Core/MethodSel.v (lib/methodsel.py)"""
+        import methodsel
+        d = os.path.join(ctx.work, "msel")
+        ok, out = vlib.cc_build(d, "method_smoke", ["method_smoke.c"], vlib.LIB_SRCS, san=False)
+        if not ok:
+            st["div"].append((0, "method_smoke does not build: " + out[-400:]))
+            return
+        n, fails, broken = methodsel.run(os.path.join(d, "method_smoke"), vlib.rng_for(ctx.seed, "C15msel"), d,
+                                         150 if ctx.tier == "quick" else 1500)
+        self.msel_cases = getattr(self, "msel_cases", 0) + n
+        if broken:
+            st["div"].append((0, broken))
+        for desc, why in fails[:5]:
+            cases.append("MSEL " + desc)
+            st["mres"].append(("", None))
+            st["ires"].append(("", None))
+            if st["mon"] is not None:
+                st["mon"].append("OK")
+            st["crashes"].append((len(cases) - 1, "poll-method selection: " + why))
+        st["n"] += n
+
+    def shrink(self, ctx, case):
+        return case if case.startswith("MSEL ") else CoreCheck.shrink(self, ctx, case)
+
+    def describe(self, case):
+        return {"method_exclusion": case[5:]} if case.startswith("MSEL ") else CoreCheck.describe(self, case)
+
     def correspond(self, ctx, cases):
+        if len(cases) == 1 and cases[0].startswith("MSEL "):
+            st = CoreCheck.correspond(self, ctx, [])
+            self.method_selection(ctx, st, [])
+            return st
         st = CoreCheck.correspond(self, ctx, cases)
         if len(cases) > 10:
             why = self.kernel_smoke(ctx)
             if why:
                 st["div"].append((0, why))
+            self.method_selection(ctx, st, cases)
         # cross-method agreement on the implementation traces
         for start in getattr(self, "groups", []):
             if start + 4 > len(cases):
